@@ -422,6 +422,7 @@ fn c11_wrath_read_server_impl(facade: bool) {
     let cd0 = dh::any_client_dec_at(253);
     let ce0 = eh::any_client_enc_at(252);
     let mut rd = AnyReader::new();
+    rd.max_calls = 6; // two read_exact loops share the budget: 6 calls in total for the 4+1 bytes
     let w = [rd.stream[0], rd.stream[1], rd.stream[2], rd.stream[3], rd.stream[4]];
     // reference: the two-step calls on the delivered bytes
     let mut ref4 = cd0.clone();
